@@ -820,6 +820,11 @@ def c20(run):
                 msg = unhx(f[2]).decode('utf-8', 'replace')
                 if se.decode('utf-8', 'replace') != 'Runtime error: ' + msg + '\n':
                     run.fail(case, 'runtime error is not reported on standard error, prefixed as such')
+                # both streams into one sink: the error must come after all output produced before it
+                pm = subprocess.run([binp, 'exec', path], input=stdin.encode(), stdout=subprocess.PIPE, stderr=subprocess.STDOUT, env=env, timeout=60)
+                if pm.stdout != out + ('Runtime error: ' + msg + '\n').encode():
+                    case['merged'] = pm.stdout.decode('utf-8', 'replace')[:400]
+                    run.fail(case, 'with stdout and stderr going to one sink the error is not reported after all output produced before it')
             elif c == 'parseerr':
                 lib = common.impl(['parse ' + hx(src)])[0].split(' ')
                 msg = unhx(lib[3]).decode('utf-8', 'replace') if len(lib) > 3 and lib[0] == 'err' else None
